@@ -15,6 +15,14 @@ CHECKS = {
     note="Trusted: TLC/Apalache, the JSON encoders of the harness (limbs, exact rationals), the lattice of inputs (not all u32 sextuples are "
          "executed; the universal statement is about the specified arithmetic). Zero-area boxes may be accepted or rejected (documented no-op).",
     design="4/C04", technique=TECH + "; Apalache lemmas over all u32"),
+ "C14": dict(
+    text="Views!Split (None-condition, band arithmetic, part rectangles) is model-checked exhaustively for every view in parents up to 3x3 with all "
+         "(axis,start,size,parts) and all split-of-split compositions (tiling: ordered, sizes differ <= 1, pairwise disjoint, union = band, inside the view); "
+         "the band arithmetic is an Apalache lemma for all 1 <= parts <= size < 2^32. Then every (container kind incl. cropped/nested/mutable, view size, axis, "
+         "start, size, parts) up to the tier's bound and seeded split-of-split cases are executed on both builds; TLC judges the None/Some answer, "
+         "every part's width/height/tag rows, and, for mutable parts, the parent after a distinct mark was written through each part.",
+    note="Trusted: TLC/Apalache, harness tag reading. size = 0 / parts = 0 are unrepresentable (NonZeroU32). UnsafeImageMut is reached through the mutable default implementation only.",
+    design="4/C14", technique=TECH + "; Apalache lemma for the band arithmetic"),
 }
 NA_REASON = "check not built yet (work in progress; DESIGN.md section 7 lists the build order)"
 
